@@ -62,7 +62,12 @@ def h_src_eof(ctx, NMAX):
         what = ctx.pick(f"r{r}", ["TICK", "ACK"] if phase == 1 else ["TICK"])
         if what == "ACK":
             w.tick(ctx.int(f"dta{r}", 0, 2))  # possibly together with a timer expiry
-            o = sc.ack_eof()
+            # the acknowledging entity may already have closed (or never known) the transaction: its ACK
+            # carries another transaction status and acknowledges the EOF all the same
+            from spacepackets.cfdp.pdu import TransactionStatus
+            st = ctx.pick(f"ack_status{r}", [TransactionStatus.ACTIVE, TransactionStatus.TERMINATED,
+                                             TransactionStatus.UNDEFINED, TransactionStatus.UNRECOGNIZED])
+            o = sc.ack_eof(status=st)
             hsrc.end_if_other_property(ctx, o)
             ctx.covered("peer_resumed")
             ctx.prop("ack_ends_retries", not o.faults and sc.rig.h.step == SStep.WAITING_FOR_FINISHED,
